@@ -45,6 +45,10 @@ func c11(w *core.World, r *core.Report) {
 	} else {
 		r.Fail("slot-functions/agree", token.NoPos, "expected two slot functions (filters/bookkeeping and cluster client), found %d", len(sums))
 	}
+	r.Rule("R10.2", "every key a command's slot verdict covers is hashed itself: FilterCmdKey keeps a key only after the slot rule (and the prefix rule) judged that key (shared with C10)", 3)
+	ruleFilterCmdKeyKeep(w, r)
+	r.Rule("R18.9", "bookkeeping keys are placed by a slot tag: the tag table is read only after it was built (shared with C18)", 1)
+	ruleSlotTagTablePublished(w, r)
 }
 
 func ruleWhoComputesSlots(w *core.World, r *core.Report) []*ssa.Function {
